@@ -63,6 +63,8 @@ SHARDS = [
     dict(macros=['textbf'], envs=['alignat', 'flalign*'], specials=[], argless=[], discard=[]),
     # a table environment laid out by a formatter function: comments in cells, the column specification is dropped
     dict(macros=['emph'], envs=['array'], specials=['&'], argless=[], discard=['args:array']),
+    # the line-break macro (its optional length argument is dropped by the conversion): comments right after it
+    dict(macros=['\\', 'textbf'], envs=[], specials=[], argless=[], discard=['args:\\']),
     # user-declared discards (custom text database): a macro and two environments
     dict(macros=['emph', 'textbf'], envs=['abstract'], specials=[], argless=[], discard=['emph', 'abstract'], textctx='custom'),
     dict(macros=['textit'], envs=['theorem', 'abstract'], specials=[], argless=[], discard=['theorem', 'abstract'], textctx='custom'),
@@ -97,7 +99,7 @@ def collect(tree, src):
                 nm = uncodes(n['name'])
                 formulas.append(dict(markers=ms, src=codes(src[n['delims'][0]:n['delims'][1]]),
                                      open=codes('\\begin{%s}' % nm), close=codes('\\end{%s}' % nm)))
-            if n['k'] == 'env' and ('args:' + uncodes(n['name'])) in disc:
+            if n['k'] in ('env', 'macro') and ('args:' + uncodes(n['name'])) in disc:
                 ms = []
                 for a in n['args']:
                     markers(a, ms, 'd')
